@@ -69,15 +69,4 @@ var commonAssumptions = []string{
 	"verdicts cover only the executions this run produced (cases derived from VERIF_SEED); schedules are sampled, not enumerated",
 }
 
-var props = []prop{
-	{
-		ID: "C20", Title: "Allocator contracts", Level: "exploration",
-		Rule: "random programs over Malloc/Append/AppendString/Realloc/Free per allocator (mempool.New variants, NewAligned, NewSTD, DefaultMemPool, TraceDebugger wrappers) checked after every operation against a shadow copy; every k ops all live buffers are compared with their shadows and their [base,base+cap) ranges checked pairwise disjoint. evaluations = programs; a program is non-trivial if it performed >=1 growth (Append/Realloc beyond capacity), >=1 free-then-malloc reuse and held >=2 buffers live at a full sweep; distinct by (allocator, mode, program seed)",
-		Assumptions: commonAssumptions,
-		Phases: []phase{
-			{Name: "main", Pkg: "./workers/c20", QuickShards: 4, ThorShards: 12},
-			{Name: "race", Pkg: "./workers/c20", Race: true, ThoroughOnly: true, ThorShards: 2, Args: []string{"--concurrent-only"}},
-		},
-		RaceFuncs: regexp.MustCompile(`^nbio/mempool\.`),
-	},
-}
+var props []prop
